@@ -38,7 +38,7 @@ func calleeRole(p *core.Prog, cc *ssa.CallCommon) string {
 	ci := core.InfoOf(cc)
 	if ci.Static != nil && strings.HasPrefix(ci.Pkg, core.ModulePath) {
 		fn := ci.Static
-		if sendsOnParam(fn) >= 0 {
+		if isInprocFrameWriter(fn) {
 			return "frame-writer"
 		}
 		if len(fn.Params) >= 1 && core.TypeStr(fn.Params[0].Type()) == "io.Writer" {
@@ -606,7 +606,7 @@ func c02HandlerErrOnWire(c *core.Ctx) {
 				return
 			}
 			var ev ssa.Value
-			if ci := core.InfoOf(&call.Call); ci.Static == nil || sendsOnParam(ci.Static) < 0 {
+			if ci := core.InfoOf(&call.Call); ci.Static == nil || !isInprocFrameWriter(ci.Static) {
 				return // only calls of a frame writer (a function that sends on its channel parameter)
 			}
 			for _, a := range call.Call.Args {
@@ -1093,11 +1093,9 @@ func c02CodeWireType(c *core.Ctx) {
 			if !ok || !strings.Contains(strings.ToLower(k), "status") {
 				continue
 			}
-			if vc, _, isCall := core.CallResult(sc.Call.Args[2]); isCall && core.InfoOf(&vc.Call).Is("fmt.Sprintf") {
-				if args, unp := core.VariadicArgs(vc.Call.Args[1]); unp && len(args) >= 1 {
-					srvType = core.TypeStr(core.Strip(args[0]).Type().Underlying())
-					pos = sc.Pos()
-				}
+			if _, args, unp := core.FormatOf(sc.Call.Args[2]); unp && len(args) >= 2 {
+				srvType = core.TypeStr(core.Strip(args[0]).Type().Underlying())
+				pos = sc.Pos()
 			}
 		}
 	}
@@ -1179,14 +1177,19 @@ func c02MessageVerbatim(c *core.Ctx) {
 		if hc.Stream {
 			continue
 		}
+		// the value of the status header: "<code>:<message>" however it is assembled (Sprintf, concatenation)
 		for _, sp := range core.CallsIn(hc.Fn, func(call *ssa.Call, ci core.CallInfo) bool {
-			if !ci.Is("fmt.Sprintf") || len(call.Call.Args) < 2 {
+			if !ci.Is("net/http.Header.Set") || len(call.Call.Args) < 3 {
 				return false
 			}
-			f, ok := core.ConstString(call.Call.Args[0])
+			k, isK := core.ConstString(call.Call.Args[1])
+			if !isK || !strings.Contains(strings.ToLower(k), "status") {
+				return false
+			}
+			f, _, ok := core.FormatOf(call.Call.Args[2])
 			return ok && strings.Contains(f, ":%")
 		}) {
-			args, ok := core.VariadicArgs(sp.Call.Args[1])
+			_, args, ok := core.FormatOf(sp.Call.Args[2])
 			key := core.FuncName(hc.Fn) + ":status-header:message-verbatim"
 			if !ok || len(args) < 2 {
 				c.Undecided(key, sp.Pos(), "cannot unpack the operands of the status header value")
@@ -1386,20 +1389,18 @@ func c02ErrFrameIsStatus(c *core.Ctx) {
 			if fn == nil || fn.Blocks == nil {
 				continue
 			}
-			core.Instrs(fn, func(in ssa.Instruction) {
-				st, ok := in.(*ssa.Store)
-				if !ok {
-					return
+			for _, fs := range frameFieldSets(fn, "err") {
+				st := struct {
+					Val ssa.Value
+					pos token.Pos
+				}{fs.Val, fs.At.Pos()}
+				if !core.IsErrorValue(st.Val) || core.IsNilConst(st.Val) {
+					continue
 				}
-				base, f, isF := core.FieldOf(st.Addr)
-				if !isF || core.NamedOf(base.Type()) != "frame" || !core.IsErrorValue(st.Val) || core.IsNilConst(st.Val) {
-					return
-				}
-				_ = f
 				n++
 				key := core.FuncName(fn) + ":error-frame:is-status-error"
 				bad := ""
-				for _, l := range core.ErrLeaves(st.Val, st) {
+				for _, l := range core.ErrLeaves(st.Val, fs.At) {
 					if l.Class == core.ErrNil || isStatusErrValue(l.V) {
 						continue
 					}
@@ -1424,11 +1425,11 @@ func c02ErrFrameIsStatus(c *core.Ctx) {
 					}
 				}
 				if bad != "" && clientSide {
-					c.Ok(key, st.Pos(), "the frame may carry a plain error, but every return of a frame's error in the client stream's receive path is a status error (converted on the receiving side)")
-					return
+					c.Ok(key, st.pos, "the frame may carry a plain error, but every return of a frame's error in the client stream's receive path is a status error (converted on the receiving side)")
+					continue
 				}
-				c.Check(bad == "", key, st.Pos(), "every value the error frame can carry is a status error", bad+": a streaming handler that returns io.EOF (the classic `return err` after Recv) ends the client's stream with a bare io.EOF, which is the success sentinel — the failed call is reported as success; the standard transport reports Unknown")
-			})
+				c.Check(bad == "", key, st.pos, "every value the error frame can carry is a status error", bad+": a streaming handler that returns io.EOF (the classic `return err` after Recv) ends the client's stream with a bare io.EOF, which is the success sentinel — the failed call is reported as success; the standard transport reports Unknown")
+			}
 		}
 	}
 	if n == 0 {
